@@ -124,7 +124,7 @@ theorem layer_ne {layer : Layer} {sl : Spec.SLayer} (hL : LayerRel layer sl) (x 
   have g := F.rel x
   rw [hf, hs, lookup_append]
   simp only [lookup, hx, if_false]
-  cases ha : lookup x (collectDefs (callDefs { sc with top := false } body)) <;>
+  cases ha : lookup x (collectDefs (callDefs { sc with top := false, cd := false } body)) <;>
     cases hb : lookup x (Spec.callDefsOf layer.mod body) <;> simp only [ha, hb, OptRel] at g ⊢
   exact g
 
